@@ -5,10 +5,92 @@ import core
 import wproto
 
 PID = "C18"
-GEN = ["InputCheck", "Spawner", "Backend", "SharedPath", "CacheCmd", "Communication", "WorkerParallel"]
+GEN = ["InputCheck", "Spawner", "Backend", "SharedPath", "CacheCmd", "Communication", "WorkerParallel", "CacheParallel",
+       "CacheBackend"]
 CONE = ["Base/Dec.v", "Base/PyLib.v", "Base/Tac.v", "Model/Worker.v", "Model/Grammar.v", "Proofs/DictFacts.v",
         "Proofs/C16Proofs.v", "Proofs/C18Proofs.v"]
-IMPORTS = ["Base.Dec", "Base.PyLib", "Base.Show", "Model.Worker", "Model.Interp", "Gen.InputCheck", "Gen.Backend", "Gen.WorkerParallel"]
+IMPORTS = ["Base.Dec", "Base.PyLib", "Base.Show", "Model.Worker", "Model.Interp", "Gen.InputCheck", "Gen.Backend", "Gen.WorkerParallel",
+           "Gen.CacheParallel", "Gen.CacheBackend"]
+
+FILE_APPLY = ("(fun r d => f <- py_getitem d (VStr \"fn\") ;; a <- py_getitem d (VStr \"args\") ;; k <- py_getitem d (VStr \"kwargs\") ;; "
+              "pos <- py_iter a ;; interp (Z.of_nat r) f pos k)")
+
+
+def drive_file_parallel(req, n):
+    """the real backend/cache_parallel.main on n rank threads; the task file is replaced by the dictionary it would hold"""
+    import importlib
+    import types
+    from unittest import mock
+    from mpi4py import MPI
+    cp = importlib.import_module("executorlib.backend.cache_parallel")
+    writes = [[] for _ in range(n)]
+    loads = []
+
+    def load(file_name):
+        loads.append(MPI.COMM_WORLD.Get_rank())
+        return wproto.to_real(req)
+
+    def write(file_name, output):
+        writes[MPI.COMM_WORLD.Get_rank()].append(output)
+
+    fake_sys = types.SimpleNamespace(argv=["cache_parallel.py", "/nowhere/task.h5in"])
+    with mock.patch.object(cp, "backend_load_file", load), mock.patch.object(cp, "backend_write_file", write), \
+            mock.patch.object(cp, "sys", fake_sys):
+        errs, alive = MPI.launch(n, cp.main)
+    if any(alive):
+        return "HANG", writes, loads
+    real = [e for e in errs if e is not None and type(e).__name__ != "BrokenBarrierError"]
+    if real:
+        return "Err " + type(real[0]).__name__, writes, loads
+    return "Ok " + core.show([w for w in writes]), writes, loads
+
+
+def drive_file_serial(req):
+    import importlib
+    from unittest import mock
+    cb = importlib.import_module("executorlib.cache.backend")
+    writes = []
+    with mock.patch.object(cb, "backend_load_file", lambda file_name: wproto.to_real(req)), \
+            mock.patch.object(cb, "backend_write_file", lambda file_name, output: writes.append(output)):
+        try:
+            cb.backend_execute_task_in_file(file_name="/nowhere/task.h5in")
+        except Exception as ex:  # noqa
+            return "Err " + type(ex).__name__, writes
+    return "Ok " + core.show(writes), writes
+
+
+def file_oracle(req, py, writes, loads, n):
+    """C18 in file mode stated directly: the task file is read by rank 0 only; on success exactly one value is written,
+    by rank 0, holding one return value per rank in rank order (the bare value for a single rank)"""
+    fn, pos, kw = req[1][0], req[2], req[3]
+    if loads != [0]:
+        return "task file loaded by ranks %r (expected rank 0 only, once)" % (loads,)
+    if fn == "boom":
+        if any(writes) or not py.startswith("Err ValueError"):
+            return "raising function: outcome %s, written %r" % (py, writes)
+        return None
+    if not py.startswith("Ok"):
+        return "succeeding function ended with %s" % py
+    if [len(w) for w in writes] != [1] + [0] * (n - 1):
+        return "writes per rank %r (expected exactly one, by rank 0)" % ([len(w) for w in writes],)
+    res = writes[0][0]
+    if n > 1:
+        if not isinstance(res, list) or len(res) != n:
+            return "multi-rank result is not a list of %d values: %r" % (n, res)
+        vals = res
+    else:
+        vals = [res]
+    marker = pos[0] if pos else kw.get("a")
+    for rank, one in enumerate(vals):
+        if fn == "retnone":
+            if one is not None:
+                return "rank %d value %r for a function returning None" % (rank, one)
+            continue
+        if marker is not None and (not isinstance(one, list) or one[0] != marker):
+            return "value %r does not belong to the task with marker %r" % (one, marker)
+        if fn == "rankecho" and one[1] != rank:
+            return "rank order violated: %r" % (res,)
+    return None
 
 
 def build_cases(res):
@@ -28,6 +110,27 @@ def build_cases(res):
         coq = wproto.RUN_SHOW % ("par_run wstep_rank %d %s (List.repeat VNone %d) [%s]" % (
             ranks, app, ranks, "; ".join(wproto.to_coq(r) for r in seq)))
         cases.append(("interactive_parallel.main x%d" % ranks, dict(ranks=ranks, seq=seq), coq, py, verdict))
+    # ---- file mode: the real cache_parallel.main on rank threads / the serial file worker vs the regenerated bodies
+    for i in range(n // 2):
+        ranks = rng.choice([1, 2, 2, 3, 4, 5])
+        req = wproto.gen_request(rng, i + 1, parallel=True)
+        while req[0] != "call":
+            req = wproto.gen_request(rng, i + 1, parallel=True)
+        py, writes, loads = drive_file_parallel(req, ranks)
+        verdict = file_oracle(req, py, writes, loads, ranks)
+        coq = ("match file_par file_rank %d %s %s with Ok ws => \"Ok \" ++ show (VList (List.map (fun w => match w with "
+               "VTuple [l] => l | _ => VStr \"?\" end) ws)) | Err e => \"Err \" ++ e end" % (ranks, FILE_APPLY, wproto.to_coq(req)))
+        cases.append(("cache_parallel.main x%d" % ranks, dict(ranks=ranks, request=req), coq, py, verdict))
+        if req[1][0] != "rankecho":
+            pys, ws = drive_file_serial(req)
+            vs = None
+            if req[1][0] == "boom":
+                vs = None if (pys == "Err ValueError" and not ws) else "raising function: %s, written %r" % (pys, ws)
+            elif len(ws) != 1:
+                vs = "serial file worker wrote %d values" % len(ws)
+            coqs = ("match file_serial (fun _ => %s 0%%nat) %s with Ok (VTuple [l]) => \"Ok \" ++ show l | Ok _ => \"?\" | Err e => \"Err \" ++ e end"
+                    % (FILE_APPLY, wproto.to_coq(req)))
+            cases.append(("backend_execute_task_in_file", dict(request=req), coqs, pys, vs))
     return cases
 
 
@@ -36,11 +139,14 @@ def run(res):
                       rule=("seeded request sequences (as C17, functions that report their rank included) on 2-5 ranks; the real "
                             "interactive_parallel.main runs on every rank (threads of the mpi4py stand-in), the regenerated per-rank "
                             "loop body is composed with bcast/gather in Coq (par_run) and evaluated by vm_compute; replies compared; "
-                            "an independent oracle checks one reply per call and rank order; distinct = distinct (ranks, sequence)"),
+                            "an independent oracle checks one reply per call and rank order; file mode: the real cache_parallel.main "
+                            "on 1-5 rank threads and the serial file worker, task file content and result write replaced by recorders, "
+                            "vs the regenerated bodies composed by file_par; distinct = distinct (ranks, sequence)"),
                       assumptions=["MPI stand-in: bcast delivers the root's object, gather delivers all ranks' values in rank order to "
                                    "the root (real MPI is not installed)", "functions that fail on some ranks only are excluded "
                                    "(real MPI would hang in gather; not part of C18)",
-                                   "file-mode cache_parallel.py: only its command line is covered (C18_file_mode_command)",
+                                   "file mode: the bodies of cache_parallel.main and backend_execute_task_in_file are regenerated with the task "
+                                   "file's content and backend_write_file cut out as parameter / recorded sink (the HDF5 protocol itself is C13/C14)",
                                    "translator + PyLib (differentially tested each run)"])
 
 
